@@ -312,8 +312,10 @@ class ProcessReceived:
     def ensures(self, old):
         q = self._receive_buffer
         k = self._thread.g_count
+        n = len(q._buffer)
         return (abs_inv(q) and k >= old.self._thread.g_count and k < len(q.g_starts) and q.g_cursor == q.g_starts[k]
-                and len(q._buffer) < 4)
+                # O29: no complete frame is left in the buffer
+                and (n < 4 or n < 4 + e5.uint_at(q.g_stream, q.g_cursor, 4)))
 
     def inv_1(self, old):
         q = self._receive_buffer
@@ -321,3 +323,63 @@ class ProcessReceived:
         return abs_inv(q) and k >= old.self._thread.g_count and k < len(q.g_starts) and q.g_cursor == q.g_starts[k]
 
     loops = {1: Loop(a=inv_1, modifies=["self._receive_buffer._buffer", "self._receive_buffer.g_cursor", "self._thread.g_count"])}
+
+
+# =============================================================================================== C09: non-blocking framing
+@contract("secsgem.common.byte_queue:ByteQueue.wait_for", "C09", name="BQWaitForNonBlocking")
+class BQWaitForNonBlocking(BQWaitForAbs):
+    """Call-site obligation for the receiver thread (O52): wait_for(n) may only be called with at least n bytes already
+    buffered, i.e. the framing loop pops complete frames only.  A peer that stops sending inside a length field, header
+    or body can then not park the receiver thread in a wait - which is what lets _on_disconnected / disable() finish."""
+
+    abstract = True
+
+    def requires(self, size):
+        return size >= 0 and abs_inv(self) and len(self._buffer) >= size
+
+
+@contract("secsgem.common.byte_queue:ByteQueue.__len__", "C09", name="BQLenAbs09")
+class BQLenAbs09(BQLenAbs):
+    abstract = True
+
+
+@contract("secsgem.common.protocol_dispatcher:ProtocolDispatcher.queue_block", "C09", name="QueueBlockAbs09")
+class QueueBlockAbs09(QueueBlockAbs):
+    abstract = True
+
+
+@contract("secsgem.common.message:Block.decode", "C09", name="BlockDecode09")
+class BlockDecode09(BlockDecode):
+    abstract = True
+
+
+@contract("secsgem.hsms.protocol:HsmsProtocol._process_received_data", "C09")
+class ProcessReceivedNonBlocking(ProcessReceived):
+    """O52 + O27-O29: the framing loop never waits for missing bytes (every wait_for has its bytes buffered) and still
+    hands over exactly the complete frames; an incomplete frame stays buffered."""
+
+    uses = [BQWaitForNonBlocking, BQLenAbs09, QueueBlockAbs09, BlockDecode09]
+
+    def replay(case, name, model):
+        """Native demonstration for a refuted non-blocking obligation: a peer that stops inside a frame and then closes."""
+        if "wait_for.requires" not in name:
+            return None
+        import threading
+        from bounded import harness as H
+        proto, conn, log = H.make_hsms()
+        proto.enable()
+        conn.connect()
+        partial = H.frame(0, 7, 1, 1, True, b"x" * 20)[:9]        # length field + 5 of 30 bytes, then silence
+        conn.feed(partial)
+        import time
+        time.sleep(0.1)
+        t = threading.Thread(target=conn.close, daemon=True)
+        t.start()
+        t.join(2.0)
+        hung = t.is_alive()
+        state = proto.connection_state.current.name
+        return {"status": "confirmed" if hung or state != "NOT_CONNECTED" else "spurious",
+                "inputs": {"fed": partial.hex(), "then": "peer close"},
+                "failed_clauses": ["disconnect handling did not finish within 2 s: the receiver thread is parked in ByteQueue.wait_for for the "
+                                   "rest of the frame" if hung else f"state {state}"],
+                "observed": {"close_returned": not hung, "connection_state": state}}
